@@ -14,9 +14,14 @@ def run(ck, progs):
     ck.rule("C05.5", "checkpoint-size account is conserved by every writer (init, malloc incl. new arena, free, in-place realloc, restore) "
                      "and checkpoint_take allocates and records exactly that amount")
     ck.rule("C05.6", "rollback pipeline: cancel -> restore -> coast forward, one index, coast forward from the restored checkpoint's position")
+    ck.rule("C05.7", "a checkpoint is labelled with the number of history entries its state includes (taken after the processed event was "
+                     "appended) and the coast forward starts at that entry; take and restore walk the arenas in the same order and thread "
+                     "the section cursor the same way")
     for cfg, P in progs.items():
         R.check_silent(ck, P, "C05.1")
         R.check_rng_rollbackable(ck, P, "C05.2")
         R.check_mirror(ck, P, "C05.3")
         R.check_account(ck, P, "C05.5", "C05.4")
         R.check_pipeline(ck, P, "C05.6")
+        R.check_checkpoint_position(ck, P, "C05.7")
+        R.check_arena_order(ck, P, "C05.7")
